@@ -138,8 +138,27 @@ def compare_items(r, label, direction, m32, m64, x, ctx, det, me=None):
         r.count("twin_nonfinite")
         return None
     if not (torch.isfinite(o32).all() and torch.isfinite(l32).all()):
+        # saturated items are not judged (the float32 convention of C09: a derivative below ~1/sqrt-ish of the float32 range,
+        # exp(-11) = 1.7e-5, is computed from O(1) terms by cancellation and may come out <= 0 - e.g. a cubic whose end slope is
+        # sigmoid(-15) x 3 x chord: true log-derivative -11.6, float32 NaN): the twin's item Jacobian tells
+        bad_rows = (~torch.isfinite(o32)).reshape(B, -1).any(1) | ~torch.isfinite(l32)
+        unexcused = []
+        for i_ in bad_rows.nonzero().reshape(-1).tolist():
+            try:
+                ci_ = c64[i_:i_ + 1] if c64 is not None else None
+                J_ = torch.autograd.functional.jacobian(lambda z_: f64(z_.reshape(x64[i_:i_ + 1].shape), ci_)[0].reshape(-1), x64[i_].reshape(-1))
+                smin = float(torch.linalg.svdvals(J_.reshape(J_.shape[0], -1)).min())
+            except Exception:
+                smin = 1.0
+            if smin < 1.7e-5:
+                r.count("saturated_items_not_judged")
+            else:
+                unexcused.append(i_)
+        if not unexcused:
+            return None
         r.ev()
-        r.viol("nonfinite_in_float32", "%s.%s returns non-finite numbers in float32 (finite in float64)" % (label, direction), **det)
+        r.viol("nonfinite_in_float32", "%s.%s returns non-finite numbers in float32 (finite in float64)" % (label, direction),
+               rows=unexcused[:4], **det)
         return False
     differs = False
     for i in range(B):
